@@ -1316,7 +1316,12 @@ impl Value {
         let slice = PaddedSliceRead::new(buffer.as_mut_slice());
         let mut parser = Parser::new(slice).with_config(cfg);
         let mut vis = DocumentVisitor::new(json.len(), smut);
-        parser.parse_dom(&mut vis)?;
+        if let Err(err) = parser.parse_dom(&mut vis) {
+            // The in-place parser has already unescaped the strings before the error inside
+            // `buffer`, so the line, column and snippet must be computed from the caller's text.
+            let index = err.offset();
+            return Err(crate::error::Error::syntax(err.error_code(), json, index));
+        }
         let idx = parser.read.index();
 
         // NOTE: root node should is the first node
